@@ -140,6 +140,25 @@ impl Envelope {
     }
 }
 
+/// a random block 3 / block 5 as text (used by the message-level round trip of C02 as well): any subset of the tags, in
+/// any order, with the empty tags spelt the way the library reads them (`{TNG}`, `{DLM}`)
+pub fn gen_b3_text(rng: &mut Rng) -> String {
+    let mut tags: Vec<&str> = BLOCK3_TAGS.iter().filter(|_| rng.below(3) == 0).cloned().collect();
+    if rng.below(3) == 0 { let k = tags.len(); for a in (1..k).rev() { let b = rng.below(a + 1); tags.swap(a, b); } }
+    let mut s = String::from("{3:");
+    for t in tags { s.push_str(&format!("{{{t}:{}}}", tag3_value(rng, t))); }
+    s.push('}');
+    s
+}
+pub fn gen_b5_text(rng: &mut Rng) -> String {
+    let mut tags: Vec<&str> = BLOCK5_TAGS.iter().filter(|_| rng.below(3) == 0).cloned().collect();
+    if rng.below(2) == 0 { let k = tags.len(); for a in (1..k).rev() { let b = rng.below(a + 1); tags.swap(a, b); } }
+    let mut s = String::from("{5:");
+    for t in tags { match tag5_value(rng, t) { Some(v) => s.push_str(&format!("{{{t}:{v}}}")), None => s.push_str(&format!("{{{t}}}")) } }
+    s.push('}');
+    s
+}
+
 pub fn gen_b1(rng: &mut Rng) -> String {
     format!("{}{}{}{}{}", rng.pick(&["F", "A", "L"]), rng.pick(&["01", "21"]), s_from(rng, ALNUM, 12), s_from(rng, DIG, 4), s_from(rng, DIG, 6))
 }
